@@ -221,25 +221,6 @@ theorem lookup_eq_last (hs : List View) (hd : Disjoint hs) (c : Nat) :
     · have : v.start > c := by omega
       simp [this, h1]
 
-theorem walkGo_eq_chainGo (hs : List View) (hd : Disjoint hs) : ∀ (f cur : Nat) (acc : List Block),
-    walkGo hs f cur acc = chainGo hs f cur acc := by
-  intro f
-  induction f with
-  | zero => intros; rfl
-  | succ f ih =>
-    intro cur acc
-    simp only [walkGo, chainGo, lookup_eq_last hs hd cur]
-    by_cases hz : bisectLeft hs cur = 0
-    · simp [hz]
-    · simp only [hz, if_false]
-      cases hget : hs[bisectLeft hs cur - 1]? with
-      | none => rfl
-      | some h =>
-        simp only []
-        by_cases hc : covers h cur = true
-        · simp only [hc, if_true]; exact ih _ _
-        · simp [hc]
-
 /-! ### termination -/
 
 theorem lookup_some {hs : List View} {c : Nat} {h : View} (hl : lookup hs c = some h) :
